@@ -54,8 +54,12 @@ def gen_spec(rng):
     if r < 0.82:
         return {"kind": "imputer", "method": rng.choice(["drift", "linear", "nearest", "mean",
                                                          "median", "ffill", "bfill"])}
-    if r < 0.88:
+    if r < 0.86:
         return {"kind": "cos"}
+    if r < 0.9:
+        # (not invertible, not index-preserving: here for the clause about the TAG - a
+        # transformer is judged index-preserving by what its class declares)
+        return {"kind": rng.choice(["acf", "pacf"])}
     ts, positive = [], True
     for _ in range(rng.randint(1, 2)):
         t = C.gen_transformer(rng)
@@ -71,6 +75,9 @@ def build(spec):
     if k == "cos":
         from sktime.transformations.series.cos import CosineTransformer
         return CosineTransformer()
+    if k in ("acf", "pacf"):
+        from engines.purity import build_series_transformer
+        return build_series_transformer(spec)
     if k == "ttf_t":
         return C.build({"kind": "ttf", "transformers": spec["transformers"],
                         "forecaster": {"kind": "naive", "strategy": "last", "sp": 1,
@@ -102,7 +109,7 @@ def _with_base(spec, **kw):
 def _needs_pos(spec):
     if spec["kind"] == "ttf_t":
         return any(C.needs_positive(t) for t in spec["transformers"])
-    return C.needs_positive(spec) if spec["kind"] not in ("cos", "hampel", "imputer") else False
+    return C.needs_positive(spec) if spec["kind"] not in ("cos", "hampel", "imputer", "acf", "pacf") else False
 
 
 def _min_len(spec):
@@ -118,6 +125,8 @@ def _min_len(spec):
             need = max(need, 12)
         if b["kind"] == "hampel":
             need = max(need, b.get("window_length", 5) + 4)
+        if b["kind"] in ("acf", "pacf"):
+            need = max(need, 14)
     return need
 
 
@@ -129,7 +138,8 @@ def generate(prop, rng, tier):
         n0 += 10
     ops = [{"op": "fit", "n": n0}]
     total = n0
-    minstretch = _min_len(spec) if _base(spec)["kind"] in ("hampel",) or spec["kind"] == "ttf_t" else 1
+    minstretch = _min_len(spec) if _base(spec)["kind"] in ("hampel", "acf", "pacf") \
+        or spec["kind"] == "ttf_t" else 1
     if _base(spec)["kind"] == "imputer":
         minstretch = 4
     for _ in range(rng.randint(2, 6 if not big else 10)):
@@ -161,7 +171,7 @@ def generate(prop, rng, tier):
         elif r < 0.955:
             ops.append({"op": "sibling", "start": rng.randint(0, 6)})
         elif r < 0.965:
-            ops.append({"op": "failed_refit", "pos": rng.randint(1, 6)})
+            ops.append({"op": "failed_refit", "pos": rng.randint(1, 6), "how": rng.choice(["nan", "short"])})
         elif r < 0.98 and minstretch == 1:
             ops.append({"op": "unpaired", "where": rng.choice(["inside", "overlap", "after"]),
                         "off": rng.randint(0, 9), "len": rng.randint(2, 8),
@@ -224,7 +234,8 @@ def execute(prop, scen):
     full2 = _series(scen, c)
     y, y2 = full.iloc[PRE:], full2.iloc[PRE:]
     res.fault("index_shift")
-    res.real.update(C.class_names(spec) if kind not in ("cos", "ttf_t") else
+    res.real.update(C.class_names(spec) if kind not in ("cos", "ttf_t", "acf", "pacf") else
+                    {"transformations.series.acf.%s" % kind} if kind in ("acf", "pacf") else
                     {"transformations.series.cos.CosineTransformer"} if kind == "cos" else
                     C.class_names({"kind": "ttf", "transformers": spec["transformers"],
                                    "forecaster": {"kind": "naive"}}))
@@ -355,6 +366,16 @@ def execute(prop, scen):
                     y = pd.Series(vals_, index=y_main.index)
                     y2 = pd.Series(vals_, index=y2_main.index)
                     res.probe("refitted_on_structureless_series")
+                if '"pearsonr"' in json.dumps(spec):
+                    # (scipy's bracket search for the Pearson criterion can fail on a given
+                    # sample: that is tolerated at fit, see the fit op)
+                    try:
+                        with peers.paused():
+                            build(spec).fit(y.iloc[st:st + n_fit])
+                            build(spec).fit(y2.iloc[st:st + n_fit])
+                    except Exception:
+                        y, y2 = y_main, y2_main
+                        continue
                 if via == "fit_transform":
                     # fit_transform on an already fitted object == fit(z).transform(z) of a new one
                     outs = both("fit_transform", lambda tr, yy: tr.fit_transform(
@@ -455,8 +476,18 @@ def execute(prop, scen):
                 # a second fit that raises inside (a missing value the trend regressor rejects):
                 # a transformer that still reports is_fitted must still answer
                 from sktime.exceptions import NotFittedError
-                bad = y.iloc[:n_fit].copy()
-                bad.iloc[min(op["pos"], n_fit - 1)] = np.nan
+                kind_of_failure = op.get("how", "nan")
+                if kind_of_failure == "short":
+                    bad = y.iloc[3:6].copy()          # far too short (and starting elsewhere)
+                else:
+                    bad = y.iloc[2:2 + n_fit].copy()
+                    bad.iloc[min(op["pos"], n_fit - 1)] = np.nan
+                probe_z = y.iloc[1:1 + max(minlen_rt, min(8, n_fit - 1))]
+                try:
+                    with peers.paused():
+                        before_ = t.transform(probe_z.copy())
+                except Exception:
+                    before_ = None
                 raised = False
                 try:
                     with peers.paused():
@@ -468,14 +499,22 @@ def execute(prop, scen):
                     res.fault("fit_raises_midway")
                     try:
                         with peers.paused():
-                            t.transform(y.iloc[1:1 + max(minlen_rt, min(8, n_fit - 1))].copy())
+                            after_ = t.transform(probe_z.copy())
                     except NotFittedError as e:
                         v("op_raised", "after a second fit that raised the transformer reports "
                           "is_fitted True but transform raises NotFittedError (%s)" % str(e)[:80],
                           op="failed_refit", exc="NotFittedError")
                         break
                     except Exception:
-                        pass
+                        after_ = None
+                    # still claiming to be fitted: then on the series of its (only successful)
+                    # fit, not on a mixture of that fit and the one that failed
+                    if before_ is not None and after_ is not None and not _same(before_, after_):
+                        v("stale_state_after_refit", "a second fit raised and the transformer still "
+                          "reports is_fitted, but transform of a fixed stretch changed from %s to %s: "
+                          "part of the failed fit was kept" % (C.fmt(before_), C.fmt(after_)),
+                          what="failed_refit")
+                        break
                 # the history continues on a properly fitted pair
                 if both("fit", lambda tr, yy: tr.fit(yy.iloc[:n_fit])) is None:
                     break
